@@ -64,7 +64,7 @@ func (cb *cbox) afterSvcHandler(name string, svc *v1.Service, pre *boxPre, res c
 		}
 		cb.memLog = append(cb.memLog, boxWrite{Key: name, IPs: post.IPs, Versions: len(cb.delivered), Phase: phase})
 	}
-	if cb.mon.c02 && svc != nil && cb.cur != nil && has {
+	if (cb.mon.c02 || cb.mon.c04) && svc != nil && cb.cur != nil && has {
 		cb.allocationEvent(name, svc, pre, snap)
 	}
 	if cb.mon.c11 && pre.had && cb.cur != nil {
@@ -90,7 +90,14 @@ func (cb *cbox) allocationEvent(name string, svc *v1.Service, pre *boxPre, snap 
 	p := model[pn]
 	if len(req.StatusIPs) == 1 && len(post.IPs) == 2 && (post.IPs[0] == req.StatusIPs[0] || post.IPs[1] == req.StatusIPs[0]) {
 		cb.c.Count("event:additional-family")
+		if cb.gainedLater == nil {
+			cb.gainedLater = map[string]bool{}
+		}
+		cb.gainedLater[name] = true
 		cb.c.Nontrivial("addfam|" + pn)
+		return
+	}
+	if !cb.mon.c02 {
 		return
 	}
 	if req.ReqBad {
@@ -117,6 +124,9 @@ func (cb *cbox) allocationEvent(name string, svc *v1.Service, pre *boxPre, snap 
 	preWorld := cb.worldFromSnap(pre.snap, model, name)
 	if !p.AutoAssign {
 		cb.c.Violation("auto:from-autoassign-false-pool", fmt.Sprintf("%s was automatically allocated %v from pool %s which has autoAssign=false", name, post.IPs, pn), nil)
+	}
+	if !p.Admits(req.Namespace, req.Labels) {
+		cb.c.Violation("auto:from-pool-that-does-not-admit", fmt.Sprintf("%s (ns %s labels %v) was automatically allocated %v from pool %s whose namespace / service selectors do not admit it", name, req.Namespace, req.Labels, post.IPs, pn), nil)
 	}
 	dualPrefer := len(req.Families) == 2 && req.Policy == vfPolPrefer
 	var better, pinnedOK []string
@@ -261,6 +271,50 @@ func (cb *cbox) quiescentChecks(prev *boxQuiet, epochEvents []string) {
 	snap := cb.snap()
 	keys := vfSortedKeys(cb.k.Store.Services)
 
+	if cb.mon.c04 {
+		// The speakers elect the layer-2 announcer of a Service from the FIRST address of its status
+		// (sha256 of node#address). Services that share an address must therefore be written with the
+		// same first address, or two nodes answer for the shared one.
+		first := map[string]string{}
+		byIP := map[string][]string{}
+		for _, k := range keys {
+			svc := cb.k.Store.Services[k]
+			for i, ing := range svc.Status.LoadBalancer.Ingress {
+				cip, _, ok := vfCanonIP(ing.IP)
+				if !ok {
+					continue
+				}
+				if i == 0 {
+					first[k] = cip
+				}
+				byIP[cip] = append(byIP[cip], k)
+			}
+		}
+		for _, ip := range vfSortedKeys(byIP) {
+			hs := byIP[ip]
+			if len(hs) < 2 {
+				continue
+			}
+			sort.Strings(hs)
+			cb.c.Eval()
+			cb.c.Count("shared-addresses-checked-for-election-key")
+			for _, h := range hs[1:] {
+				if first[h] != first[hs[0]] {
+					sig := "l2-election-key-differs-among-sharers:same-addresses-listed-in-different-order"
+					if cb.gainedLater[h] || cb.gainedLater[hs[0]] {
+						// a PreferDualStack service that gained its second address later keeps it appended
+						sig += ":second-address-gained-later"
+					}
+					if !vfSameSet(world.Holdings[h].IPs, world.Holdings[hs[0]].IPs) {
+						sig = "l2-election-key-differs-among-sharers:services-share-only-part-of-their-addresses"
+					}
+					cb.c.Violation(sig, fmt.Sprintf("at quiescence %s and %s both hold %s but their statuses start with %s and %s: the speakers elect the announcer from the first address, so two nodes can answer for %s", hs[0], h, ip, first[hs[0]], first[h], ip), nil)
+				} else if len(cb.k.Store.Services[h].Status.LoadBalancer.Ingress) > 1 {
+					cb.c.Nontrivial("dual-sharers|" + ip + "|" + first[h])
+				}
+			}
+		}
+	}
 	if cb.mon.c01 {
 		byIP := map[string][]string{}
 		for k, h := range world.Holdings {
